@@ -42,19 +42,19 @@ type piece struct {
 }
 
 type pamCase struct {
-	User     *string  `json:"user"`
-	StackPW  *string  `json:"stackpw"`
-	ConvPW   *string  `json:"convpw"`
-	ConvRC   int      `json:"conv_rc"`
-	UserRC   int      `json:"user_rc"`
-	Opts     []string `json:"opts"`
-	Server   string   `json:"server"` // none | noaccept | script | gate-close
-	ReadAll  bool     `json:"read_all"`
-	ReadK    int      `json:"read_k"`
-	Reply    string   `json:"reply_class"`
-	Pieces   []piece  `json:"pieces"`
-	End      string   `json:"end"` // close | keep
-	Flags    int      `json:"flags"`
+	User    *string  `json:"user"`
+	StackPW *string  `json:"stackpw"`
+	ConvPW  *string  `json:"convpw"`
+	ConvRC  int      `json:"conv_rc"`
+	UserRC  int      `json:"user_rc"`
+	Opts    []string `json:"opts"`
+	Server  string   `json:"server"` // none | noaccept | script | gate-close
+	ReadAll bool     `json:"read_all"`
+	ReadK   int      `json:"read_k"`
+	Reply   string   `json:"reply_class"`
+	Pieces  []piece  `json:"pieces"`
+	End     string   `json:"end"` // close | keep
+	Flags   int      `json:"flags"`
 }
 
 func sp(s string) *string { return &s }
